@@ -10,7 +10,7 @@ RULE = ("random multi-script fonts (6-14 glyphs from Latin, Cyrillic, Greek, Ara
         "Arabic-Indic, punctuation, unencoded alternates reached through GSUB, GDEF marks) x disjoint kern1/kern2 groups (with "
         "missing members) x kerning dictionaries with glyph and group keys, exceptions at every precedence level, zero / "
         "fractional / negative / tie values, references to missing glyphs x languagesystem statements x quantisation {1,5,10} "
-        "x both kern writers; the compiled GPOS/GDEF is dumped structurally and TLC evaluates EVERY (script, language, glyph, "
+        "x both kern writers (one case in five: the same writer instance then serves one or two other fonts); the compiled GPOS/GDEF is dumped structurally and TLC evaluates EVERY (script, language, glyph, "
         "glyph) triple; non-trivial = the font has at least one non-zero expected pair; distinct by source digest")
 ASSUMPTIONS = ["OpenType semantics per the OpenType specification (first deciding subtable ends a lookup)",
                "glyph script / bidi classification recomputed independently from Unicode data + GSUB closure",
@@ -37,16 +37,25 @@ def cases(tier, seed):
         writer = "kern1" if rng.random() < 0.7 else "kern2"
         c = layout_gen.kerning_font(rng, writer)
         c.update({"cid": f"c05-{seed}-{k}", "lib": rng.choice(["ufoLib2", "defcon"]), "writers": ["kern"]})
+        if k % 5 == 4:
+            # the same writer instance then serves one or two other fonts (same options)
+            c["then"] = []
+            for j in range(rng.randint(1, 2)):
+                d = layout_gen.kerning_font(rng, writer)
+                d.update({"cid": f"c05-{seed}-{k}+{j + 1}", "lib": c["lib"], "writers": ["kern"], "q": c.get("q", 1), "kernOpts": c.get("kernOpts")})
+                c["then"].append(d)
         out.append(c)
     return out
 
 
 def execute(case):
-    f2, fea, data = layout_exec.compile_layout(case)
-    rec = layout_exec.kern_record(case, f2, case["cid"])
-    rec["_fea"] = fea
-    rec["_writer"] = case["writer"]
-    return [rec]
+    recs = []
+    for c, f2, fea in layout_exec.compile_sequence(case):
+        rec = layout_exec.kern_record(c, f2, c["cid"])
+        rec["_fea"] = fea
+        rec["_writer"] = c["writer"]
+        recs.append(rec)
+    return recs
 
 
 def nontrivial(rec):
